@@ -139,7 +139,37 @@ def check_config(chk, prog, cfg):
                     if recv[0] == "field" and recv[1][0] == "downcast" and recv[1][3] == "Vacant" and recv[1][1] == ent:
                         inserts.append((bb, {"args": [None, gets[0][1]["args"][1], t["args"][1]], "_entry": True}))
     rewriters = find_rewriters(prog, rt_path)
-    rec = [(bb, t) for bb, t in b.calls() if b.callee_name(t) == mir.strip_generics(rt_path) or b.callee_name(t) in rewriters]
+    rt_name_ = mir.strip_generics(rt_path)
+    # `let mut retain_inner = |id| retain_type(id, types, new_types, retained_mappings);` -- a local shorthand for the recursive call
+    rec_closures = set()
+    from ..lib import loops as _loops
+    for cp in prog.closures_by_root.get(rt_path, []):
+        cb_ = prog.body(cp)
+        if cb_ is None:
+            continue
+        cr_ = cb_.return_term()
+        if cr_[0] == "call" and cr_[1]["name"] == rt_name_ and len(cr_[2]) == 4 and mir.strip_transparent(cr_[2][0]) == ("arg", 2, cb_.names.get(2)):
+            rec_closures.add(cp)
+
+    def as_recursive_call(t):
+        """the recursive call behind `t`: t itself, or the call of a recursion closure rewritten to retain_type(<arg>, types, new_types, map)"""
+        if t[0] == "call" and t[1]["name"] == rt_name_ and len(t[2]) == 4:
+            return t
+        if t[0] == "call" and t[1].get("method") in ("call_mut", "call", "call_once") and len(t[2]) == 2:
+            cl_, ups_ = mir.closure_of(t[2][0])
+            if cl_ is None:
+                f0 = mir.strip_transparent(t[2][0])
+                if f0[0] == "var":
+                    ini = b.var_init(f0[1])
+                    if len(ini) == 1:
+                        cl_, ups_ = mir.closure_of(ini[0])
+            if cl_ in rec_closures and t[2][1][0] == "agg" and len(t[2][1][3]) == 1:
+                lam_ = _loops.lam_of(prog, ("agg", "closure", mir.HDict({"closure": cl_}), tuple(ups_)))
+                inner_ = lam_.outer(lam_.result)
+                return ("call", inner_[1] if False else mir.HDict(dict(inner_[1], bb=t[1]["bb"])), (t[2][1][3][0],) + tuple(inner_[2][1:]))
+        return None
+    rec = [(bb, t) for bb, t in b.calls() if b.callee_name(t) == rt_name_ or b.callee_name(t) in rewriters
+           or as_recursive_call(b.call_term(t, bb=bb)) is not None]
     chk.count("recursive_calls", len(rec))
 
     def is_new_id(t):
@@ -216,6 +246,24 @@ def check_config(chk, prog, cfg):
         val = b.rvalue_term(rhs) if kind == "assign" else b.call_term(rhs, bb=bb)
         ap = paths.access_path(b, lhs, roots={entry})
         if ap is None:
+            alts_ = _phi_places(b, lhs, entry)
+            v_ = val
+            if alts_ and v_[0] == "call" and last(v_[1]["name"]) in ("into", "from") and len(v_[2]) == 1:
+                inner_ = as_recursive_call(v_[2][0]) or v_[2][0]
+                tgt_ = mir.unref(lhs)
+                if inner_[0] == "call" and inner_[1]["name"] == rt_name_ and len(inner_[2]) == 4:
+                    idt = mir.unref(inner_[2][0])
+                    same_ = idt[0] == "field" and idt[3] == "id" and mir.unref(idt[1]) == tgt_
+                    pass_ = (mir.strip_transparent(inner_[2][1]) == A_TYPES and mir.strip_transparent(inner_[2][2]) == A_NEW
+                             and mir.strip_transparent(inner_[2][3]) == A_MAP)
+                    for q_ in alts_:
+                        qq = PFX + q_
+                        if qq in id_places:
+                            seen_id_store.setdefault(qq, []).append((same_ and pass_ and b.dominates(inner_[1]["bb"], bb), bb,
+                                                                     "rewritten through a reference selected by a match over the definition kinds: %s" % path_str(val)[:80]))
+                        else:
+                            chk.fail("R10.C", "write:" + qq, W(bb), "retain_type writes `%s` of the retained entry, which is not an id-typed place" % qq, cfg)
+                    continue
             chk.unrecognised("R10.C", "store:" + path_str(lhs), W(bb), "store target is not a recognised access path", cfg)
             continue
         root, p = ap[0], paths.norm(ap[1])
@@ -241,7 +289,7 @@ def check_config(chk, prog, cfg):
             okv = False
             detail = "value %s" % path_str(val)
             if v[0] == "call" and last(v[1]["name"]) in ("into", "from") and len(v[2]) == 1:
-                inner = v[2][0]
+                inner = as_recursive_call(v[2][0]) or v[2][0]
                 if inner[0] == "call" and inner[1]["name"] == mir.strip_generics(rt_path) and len(inner[2]) == 4:
                     a0 = paths.access_path(b, inner[2][0], roots={entry})
                     same_place = a0 is not None and a0[0] == entry and PFX + paths.norm(a0[1]) == q + ".id"
@@ -270,17 +318,16 @@ def check_config(chk, prog, cfg):
             continue
         ct_ = b.call_term(t, bb=bb)
         ap = paths.access_path(b, ct_[2][0], roots={entry})
-        q = None
-        if ap is not None and ap[0] == entry:
-            p_ = PFX + paths.norm(ap[1])
-            q = next((x for x in id_places if x == p_), None)
         pass_through = len(ct_[2]) == 4 and mir.strip_transparent(ct_[2][1]) == A_TYPES and mir.strip_transparent(ct_[2][2]) == A_NEW and mir.strip_transparent(ct_[2][3]) == A_MAP
-        if q is None:
-            chk.fail("R10.C", "rewriter-target:" + (paths.norm(ap[1]) if ap else path_str(ct_[2][0])[:40]), W(bb),
-                     "%s is applied to %s, which is not an id-typed place of the retained entry" % (last(b.callee_name(t)), path_str(ct_[2][0])[:80]), cfg)
-            continue
-        seen_id_store.setdefault(q, []).append((pass_through, bb, "rewritten in place by %s(&mut <entry>%s, types, new_types, retained_mappings) = "
-                                                "`*p = From(retain_type(p.id, ..))`%s" % (last(b.callee_name(t)), q, "" if pass_through else " -- collections not passed through")))
+        base_ = PFX + paths.norm(ap[1]) if ap is not None and ap[0] == entry else None
+        for rel_ in rewriters[b.callee_name(t)]:
+            q = next((x for x in id_places if base_ is not None and x == paths.norm(base_ + rel_)), None)
+            if q is None:
+                chk.fail("R10.C", "rewriter-target:" + ((base_ or path_str(ct_[2][0])[:40]) + rel_), W(bb),
+                         "%s is applied to %s: `%s%s` is not an id-typed place of the retained entry" % (last(b.callee_name(t)), path_str(ct_[2][0])[:80], base_, rel_), cfg)
+                continue
+            seen_id_store.setdefault(q, []).append((pass_through, bb, "rewritten in place by %s(&mut <entry>%s, types, new_types, retained_mappings), which does "
+                                                    "`p%s = From(retain_type(p%s.id, ..))`%s" % (last(b.callee_name(t)), base_, rel_, rel_, "" if pass_through else " -- collections not passed through")))
     for q in id_places:
         lst = seen_id_store.get(q, [])
         if not lst:
@@ -346,6 +393,7 @@ def check_config(chk, prog, cfg):
     # ---- match exhaustiveness on type_def
     td = prog.adts.get("scale_info::ty::TypeDef")
     found = False
+    exh_ = []
     for i, bl in enumerate(b.blocks):
         t = bl["term"]
         if t["k"] != "switch":
@@ -358,8 +406,10 @@ def check_config(chk, prog, cfg):
                 arms = {int(a[0]) for a in t["arms"]}
                 want = {int(v["discr"]) for v in td["variants"]}
                 otherwise_unreachable = b.blocks[t["otherwise"]]["term"]["k"] == "unreachable"
-                chk.expect(arms == want and otherwise_unreachable, "R10.M", "retain_type:match-type_def", W(i),
-                           "arms %s, variants %s, otherwise->%s" % (sorted(arms), sorted(want), b.blocks[t["otherwise"]]["term"]["k"]), cfg)
+                exh_.append((arms == want and otherwise_unreachable, i, "arms %s, variants %s, otherwise->%s" % (sorted(arms), sorted(want), b.blocks[t["otherwise"]]["term"]["k"])))
+    if exh_:
+        best = sorted(exh_, key=lambda x: not x[0])[0]
+        chk.expect(best[0], "R10.M", "retain_type:match-type_def", W(best[1]), best[2] + ("; %d match(es) on the definition kind in total" % len(exh_)), cfg)
     if not found:
         chk.unrecognised("R10.M", "retain_type:match-type_def", W(), "no switch on discriminant(entry.ty.type_def) found", cfg)
 
@@ -544,11 +594,14 @@ def check_driver_iterator_form(chk, prog, d, rt_name, cfg):
 
 
 def find_rewriters(prog, rt_path):
-    """crate-local helpers nested in `retain` of the form  fn h(p: &mut Id, types, new_types, mappings) { *p = From(retain_type(p.id, types, new_types, mappings)) }
-    — calling one on an id place is the same as rewriting that place inline.  Returns the set of (generic-stripped) names."""
+    """crate-local helpers nested in `retain` that rewrite ids in place through a `&mut` first parameter and hand the three collections through:
+        fn remap(p: &mut Id, types, new_types, map)              { *p = From(retain_type(p.id, types, new_types, map)) }
+        fn retain_fields(fs: &mut [Field], types, new_types, map) { for f in fs { f.ty = From(retain_type(f.ty.id, types, new_types, map)) } }
+    Returns {generic-stripped name: [paths, relative to the parameter, of the id places it rewrites]}; a helper that stores anything else through
+    its parameter, or calls anything but retain_type / conversions / iteration, is not in the result (the caller then reports the escape)."""
     rt_name = mir.strip_generics(rt_path)
     prefix = rt_name.rsplit("::", 1)[0] + "::"
-    out = set()
+    out = {}
     for p_, f in prog.fns.items():
         sp = mir.strip_generics(p_)
         if not sp.startswith(prefix) or sp == rt_name or f.get("kind") != "Fn":
@@ -558,20 +611,48 @@ def find_rewriters(prog, rt_path):
             continue
         P, T_, N_, M_ = [("arg", i, hb.names.get(i)) for i in (1, 2, 3, 4)]
         calls = [(bb, hb.call_term(t, bb=bb)) for bb, t in hb.calls()]
-        rcs = [(bb, c) for bb, c in calls if c[1]["name"] == rt_name]
-        others = [c for bb, c in calls if c[1]["name"] != rt_name and last(c[1]["name"]) not in ("into", "from")]
-        if len(rcs) != 1 or others:
+        others = [c for bb, c in calls if c[1]["name"] != rt_name and last(c[1]["name"]) not in ("into", "from", "iter_mut", "into_iter", "next", "deref_mut", "deref", "as_mut", "as_mut_slice")]
+        if others or not [1 for bb, c in calls if c[1]["name"] == rt_name]:
             continue
-        rbb, rc = rcs[0]
-        a0 = paths.access_path(hb, rc[2][0])
-        ok = a0 is not None and a0[0] == P and paths.norm(a0[1]) == ".id" and [mir.strip_transparent(x) for x in rc[2][1:]] == [T_, N_, M_]
-        sts = hb.stores()
-        if ok and len(sts) == 1:
-            kind, sbb, j, lhs, rhs = sts[0]
+        rels, good = [], True
+        for kind, sbb, j_, lhs, rhs in hb.stores():
             lt = hb.place_term(lhs)
             val = hb.rvalue_term(rhs) if kind == "assign" else hb.call_term(rhs, bb=sbb)
-            apl = paths.access_path(hb, lt)
-            okv = val[0] == "call" and last(val[1]["name"]) in ("into", "from") and len(val[2]) == 1 and val[2][0] == rc
-            if apl is not None and apl[0] == P and paths.norm(apl[1]) == "" and okv and hb.dominates(rbb, sbb):
-                out.add(sp)
+            apl = paths.access_path(hb, lt, roots={P})
+            if apl is None or apl[0] != P:
+                good = False
+                break
+            rel = paths.norm(apl[1])
+            okv = val[0] == "call" and last(val[1]["name"]) in ("into", "from") and len(val[2]) == 1 and val[2][0][0] == "call" and val[2][0][1]["name"] == rt_name
+            if okv:
+                rc = val[2][0]
+                a0 = paths.access_path(hb, rc[2][0], roots={P})
+                okv = a0 is not None and a0[0] == P and paths.norm(a0[1]) == rel + ".id" and [mir.strip_transparent(x) for x in rc[2][1:]] == [T_, N_, M_] \
+                    and hb.dominates(rc[1]["bb"], sbb)
+            if not okv:
+                good = False
+                break
+            rels.append(rel)
+        if good and rels:
+            out[sp] = rels
     return out
+
+
+def _phi_places(b, lhs, entry):
+    """places (paths relative to entry) a store target may denote when it is `*r` with r = Some(&mut a) | Some(&mut b) | None taken apart: list of paths, or None"""
+    t = mir.unref(lhs)
+    # (phi(..) as Some).0
+    if not (t[0] == "field" and t[1][0] == "downcast" and t[1][3] == "Some" and t[1][1][0] == "phi"):
+        return None
+    out = []
+    for a in t[1][1][1]:
+        if a[0] == "agg" and a[2].get("vname") == "None":
+            continue
+        if a[0] == "agg" and a[2].get("vname") == "Some" and len(a[3]) == 1:
+            ap = paths.access_path(b, a[3][0], roots={entry})
+            if ap is None or ap[0] != entry:
+                return None
+            out.append(paths.norm(ap[1]))
+        else:
+            return None
+    return out or None
